@@ -31,7 +31,7 @@ def gen_tu(path, group, chunk, base):
 def select(ctx):
     thorough = ctx.tier == "thorough"
     stacks, seen = [], set()
-    FULL4 = [(1, 1), (1, 3), (2, 2), (3, 1), (3, 3), (2, 4), (4, 2)]
+    FULL4 = list(NM_ALL)   # thorough: every stack to depth 4 for all 16 (N,M)
     plan = [(nm, 4 if (thorough and nm in FULL4) else 5) for nm in NM_ALL]
     for i, ((n, m), depth) in enumerate(plan):
         it, rt, st = type_variants(i)
@@ -66,7 +66,7 @@ def run(ctx):
         "stacks": len(stacks), "stacks_with_empty_domain": total.get("stacks_with_empty_domain", 0),
         "coordinates_total": total.get("coordinates_total"), "coordinates_in_domain": total.get("coordinates_in_domain"),
         "samples": total.get("samples", [])[:8] or ["(none)"],
-        "rule": "generated stacks of the layer grammar (quick: pairwise adjacency cover at depth <= 5 for all 16 (N,M); thorough: additionally EVERY stack to depth 4 for (N,M) in (1,1),(1,3),(2,2),(3,1),(3,3),(2,4),(4,2)), coordinate/storage types rotated; innermost models: "
+        "rule": "generated stacks of the layer grammar (quick: pairwise adjacency cover at depth <= 5 for all 16 (N,M); thorough: EVERY stack to depth 4 for all 16 (N,M)), coordinate/storage types rotated; innermost models: "
                 "probe_fn, constant, identity, and array / probe_array filled from the interpreter's model function; per stack the N-fold product of a dyadic coordinate alphabet (integers 0..4 or reals -0.25..3.25); the reference interpreter applies each layer's "
                 "one-line definition outermost to innermost and the value maps on the way out, and also decides whether the coordinate is inside the stack's domain (storage extents, interpolation cell) - only in-domain coordinates are put to the implementation; "
                 "both at() overloads must equal the interpreter exactly (within 64u(sum|wv|+1) through linear); states = (stack, in-domain coordinate) pairs evaluated on the implementation, transitions = interpreter traces, "
